@@ -438,8 +438,14 @@ func genOp(rng *rand.Rand, id int) zop {
 		return zop{"getset", sk, v}
 	case x < 40:
 		return zop{"setnx", sk, v}
-	case x < 48:
+	case x < 42:
 		return zop{"set", sk, v}
+	case x < 44:
+		return zop{"setex", sk, v}
+	case x < 46:
+		return zop{"setifnx", sk, v}
+	case x < 48:
+		return zop{"setifxx", sk, v}
 	case x < 54:
 		return zop{"del", sk, 0}
 	case x < 68:
@@ -459,6 +465,14 @@ func (o zop) args() []string {
 		return []string{o.T, keyPrefix + o.K}
 	case "getset", "setnx", "set":
 		return []string{o.T, keyPrefix + o.K, strconv.FormatInt(o.V, 10)}
+	case "setex": // an expiry far beyond the run: the key behaves like one without expiry
+		return []string{"setex", keyPrefix + o.K, "1000000", strconv.FormatInt(o.V, 10)}
+	case "setifnx":
+		return []string{"set", keyPrefix + o.K, strconv.FormatInt(o.V, 10), "NX"}
+	case "setifxx":
+		return []string{"set", keyPrefix + o.K, strconv.FormatInt(o.V, 10), "XX"}
+	case "pfadd": // one of a few fixed elements of the HyperLogLog key p1
+		return []string{"pfadd", keyPrefix + "p1", "e" + strconv.FormatInt(o.V, 10)}
 	case "hincrby":
 		return []string{"hincrby", keyPrefix + "h1", o.K[2:], strconv.FormatInt(o.V, 10)}
 	case "lpush":
@@ -492,6 +506,7 @@ type zstore struct {
 	H1f1 int64   `json:"h1f1"`
 	H1f2 int64   `json:"h1f2"`
 	L1   []int64 `json:"l1"`
+	P1   int64   `json:"p1"` // PFCOUNT of the HyperLogLog key
 }
 
 // dump reads every modelled location from one node.
@@ -523,6 +538,9 @@ func dumpNode(port int) (zstore, error) {
 		return st, err
 	}
 	if st.H1f2, err = get("hget", keyPrefix+"h1", "f2"); err != nil {
+		return st, err
+	}
+	if st.P1, err = get("pfcount", keyPrefix+"p1"); err != nil {
 		return st, err
 	}
 	v, err := c.do(3*time.Second, "lrange", keyPrefix+"l1", "0", "-1")
@@ -653,6 +671,7 @@ type workload struct {
 	leader  int32 // node that last reported itself leader (0 = unknown); see popOK
 	think   int   // mean client think time in ms between operations (0 = none)
 	burst   int   // the first `burst` operations of a run are issued without think time (batched applies)
+	pf      bool  // also issue PFADD on the HyperLogLog key (histories that start empty only)
 	pollOn  bool
 }
 
@@ -779,6 +798,15 @@ func (w *workload) run(maxOps int) {
 					// SET / DEL on different keys, issued concurrently without think time: several of them
 					// end up in one Ready and are applied as one write batch (CommitBatch answers them)
 					op = []zop{{"set", "s1", int64(1000 + id)}, {"del", "s2", 0}, {"set", "s2", int64(1000 + id)}, {"del", "s1", 0}}[rng.Intn(4)]
+					if w.issuedOps() > w.burst/2 {
+						// second half: contention on ONE key - conditional SETs, SETEX and DEL by all clients
+						// at once; of the conditional SETs that meet the same state only one may win
+						v := int64(1000 + id)
+						op = []zop{{"setifnx", "s1", v}, {"setifnx", "s1", v}, {"setifnx", "s1", v}, {"del", "s1", 0},
+							{"setifxx", "s1", v}, {"setex", "s1", v}}[rng.Intn(6)]
+					}
+				} else if w.pf && rng.Intn(9) == 0 {
+					op = zop{"pfadd", "p1", int64(1 + rng.Intn(8))}
 				}
 				for (op.T == "lpop" || op.T == "rpop" || op.T == "setnx") && !w.popOK(target) {
 					op = genOp(rng, id)
@@ -787,6 +815,9 @@ func (w *workload) run(maxOps int) {
 				v, err := conn.do(w.opTO, op.args()...)
 				if err == nil {
 					if n, ok := replyInt(v); ok {
+						if op.T == "pfadd" && (n == 0 || n == 1) {
+							n = 1 // the changed / unchanged answer of PFADD is not checked (see ZOps)
+						}
 						w.h.ok(id, n)
 						if rng.Intn(12) == 0 { // move to another node now and then
 							conn.close()
